@@ -25,6 +25,15 @@ type Ctx struct {
 	Cat    *Catalog
 	Trace  bool
 	Traces []any
+	// Beat tells the orchestrator that the executor is alive while it works outside the
+	// scheduler (file replays of megabytes, large parses); nil-safe through beat().
+	Beat func()
+}
+
+func (x *Ctx) beat() {
+	if x != nil && x.Beat != nil {
+		x.Beat()
+	}
 }
 
 // Family is the machinery of one property.
